@@ -115,6 +115,26 @@ MISSED_FIRST = {
     "C19-r7-point-multi-unnormalised": "`point()` with a list / array of parameters",
     "C20-r7-add-len-6-vs-1": "lengths 6 and 7 in the typed sums",
     "C20-r7-trexp-theta-mod-2pi": "motions generated by twists of large magnitude (prismatic beyond 2 pi, screws wound more than one turn)",
+    # round 8
+    "C01-r8-pose3d-SE3": "closure on objects holding several values (inverse, products, quotients, powers: every value checked, bottom row included)",
+    "C01-r8-quaternion-UnitQuaternion": "interpolation towards the other quaternion of the double cover (nearly opposite operands)",
+    "C02-r8-transforms2d-trlog2": "the check crashed (result could not be read back): `check_value` made total; an exception escaping from a library call is now reported as a violation, not as a machinery failure",
+    "C03-r8-vectors-unitvec_norm": "so(3) / so(2) forms (vector, scalar, skew matrix; base functions and SO3.Exp / SO2.Exp) over the magnitude sweep",
+    "C04-r8-transforms3d-tr2rpy": "angle-set bridges on 40 random rotations (every branch of the extraction formulas)",
+    "C04-r8-twist-Twist3": "`Twist3.Revolute(axis, point).exp(angle)` (0 included, both units) against the rotation about that axis",
+    "C05-r8-transforms3d-tr2angvec": "axis-angle extraction from a pose matrix WITH a translation (identity rotation included)",
+    "C06-r8-quaternion-UnitQuaternion": "route `UnitQuaternion(SO3 / SE3 object holding k values) * p`",
+    "C07-r8-transforms3d-oa2r": "every value produced by the primitive constructors (`Ctor` cases, all entry points) is given to the predicate of its class",
+    "C07-r8-quaternion-UnitQuaternion": "`Validity` kind 'wrong-shape' (members of another group, arrays of norm 1 of another shape) and predicate `UnitQuaternion.isvalid`",
+    "C08-r8-DualQuaternion-DualQuaternion": "`Dispatch.Variants`: objects of a general class holding values of the special subclass (found the `UnitQuaternion / Quaternion` defect, repaired); `DualQuaternion * vector` decided as must-raise",
+    "C10-r8-quaternion-UnitQuaternion": "value identities of UnitQuaternion alternate between the two quaternions of the double cover (neighbouring values in opposite hemispheres), compared with their sign",
+    "C09-r8-twist-Twist3": "`Dispatch.ApplyExp` (twists x vector of angles under the binary length rule) - found the Twist2.exp defect, repaired",
+    "C13-r8-vectors-angdiff": "`LieTrace` events angdiff1 / angdiff2 on multiples of a quarter turn up to +-20 turns (`QuarterWrap`)",
+    "C16-r8-argcheck-getvector": "points with symbolic coordinates in every container form (list, tuple, object ndarray, column, 3 x N)",
+    "C16-r8-super_pose-SMPose": "a pose combined with a symbolic scalar (* / + -, both orders)",
+    "C17-r8-super_pose-SMPose": "class-level and module-level mutable data in the process-wide snapshot; keyword options must not stick (m(); m(option); m())",
+    "C17-r8-smuserlist-SMUserList": "every instance attribute in the receiver snapshot (a hidden cursor written by a read)",
+    "C18-r8-vectors-isunittwist2": "the inverse (negated) unit twist in the two-argument base forms",
 }
 
 
